@@ -16,6 +16,7 @@ type Binding struct {
 	typ      *T
 	depth    int
 	ptrParam bool // pointer parameter whose pointee is threaded
+	ptrLocal bool // local pointer to a fresh allocation (x := &T{...}): the only name of its pointee, threaded like a pointer parameter
 	madeAt   ast.Stmt
 }
 
@@ -25,6 +26,7 @@ type Val struct {
 	typ    *T
 	cst    *big.Int // integer constant
 	poison string   // non-empty: the value must not be used (reason)
+	fresh  bool     // a pointer to a fresh allocation (&T{...}); term is the pointee
 }
 
 type loopCtx struct {
@@ -114,13 +116,14 @@ type FuncInfo struct {
 }
 
 type Tr struct {
-	p       *Pkg
-	infos   map[string]*FuncInfo
-	state   map[string]int // 1 = in progress, 2 = done
-	out     []string       // emitted items, in dependency order
-	emitted map[string]bool
-	mutMemo map[string][]bool
-	rxMemo  map[string]int
+	p         *Pkg
+	needDEval bool // a map[Variable]*Term was translated: dbindings / dlookup of Model/DEval.v
+	infos     map[string]*FuncInfo
+	state     map[string]int // 1 = in progress, 2 = done
+	out       []string       // emitted items, in dependency order
+	emitted   map[string]bool
+	mutMemo   map[string][]bool
+	rxMemo    map[string]int
 	// per function
 	fn      *FuncInfo
 	counter int
@@ -751,6 +754,7 @@ func (tr *Tr) bindAll(at ast.Node, lhs []ast.Expr, vals []Val, define bool, decl
 		// target
 		var b *Binding
 		isNew := false
+		deref := false
 		switch l := l.(type) {
 		case *ast.Ident:
 			if l.Name == "_" {
@@ -776,6 +780,9 @@ func (tr *Tr) bindAll(at ast.Node, lhs []ast.Expr, vals []Val, define bool, decl
 					}
 				}
 				b = &Binding{goName: l.Name, typ: t, depth: e.depth}
+				if v.fresh && t.K == KPtr {
+					b.ptrLocal = true
+				}
 			}
 		case *ast.StarExpr:
 			id, ok := unparen(l.X).(*ast.Ident)
@@ -783,19 +790,23 @@ func (tr *Tr) bindAll(at ast.Node, lhs []ast.Expr, vals []Val, define bool, decl
 				tr.fail(l, "assignment through a pointer expression")
 			}
 			pb, exists := e.scope[id.Name]
-			if !exists || !pb.ptrParam {
+			if !exists || !(pb.ptrParam || pb.ptrLocal) {
 				tr.fail(l, "assignment through %s, which is not a pointer parameter", id.Name)
 			}
-			if !tr.isMutated(pb) {
+			if pb.ptrParam && !tr.isMutated(pb) {
 				tr.fail(l, "internal: write through %s not found by the pre-pass", id.Name)
 			}
 			b = pb
+			deref = true
 		default:
 			tr.fail(l, "assignment to %T", l)
 		}
 		target := b.typ
-		if b.ptrParam {
+		if deref || b.ptrParam {
 			target = b.typ.Elem
+		}
+		if !deref && !isNew && b.ptrLocal {
+			tr.fail(l, "assignment to the pointer variable %s (aliasing is not represented)", b.goName)
 		}
 		if v.poison == "" {
 			v = tr.coerce(v, target, at)
@@ -804,6 +815,7 @@ func (tr *Tr) bindAll(at ast.Node, lhs []ast.Expr, vals []Val, define bool, decl
 		}
 		nv := v
 		nv.typ = b.typ
+		nv.fresh = false
 		if v.poison == "" && !isKnown(v) {
 			name := tr.fresh(b.goName)
 			lets = append(lets, fmt.Sprintf("let %s := %s in", name, v.term))
@@ -860,6 +872,9 @@ func (tr *Tr) assignStmt(s *ast.AssignStmt, env *Env, next ast.Stmt, rest cont) 
 		if ta, ok := unparen(s.Rhs[0]).(*ast.TypeAssertExpr); ok && ta.Type != nil {
 			return tr.commaOk(s, ta, define, env, rest)
 		}
+		if ix, ok := unparen(s.Rhs[0]).(*ast.IndexExpr); ok {
+			return tr.commaOkMap(s, ix, define, env, rest)
+		}
 	}
 	// multi-valued call
 	if len(s.Rhs) == 1 && len(s.Lhs) > 1 {
@@ -908,7 +923,7 @@ func (tr *Tr) assignStmt(s *ast.AssignStmt, env *Env, next ast.Stmt, rest cont) 
 			return out
 		}
 		return tr.expr(s.Rhs[j], e, func(e2 *Env, v Val) string {
-			if v.typ.K == KBigInt || v.typ.K == KRegexp {
+			if v.typ.K == KBigInt || v.typ.K == KRegexp || v.typ.K == KPtr {
 				if _, isId := unparen(s.Rhs[j]).(*ast.Ident); isId {
 					tr.fail(s.Rhs[j], "copy of a pointer (%v): aliasing is not represented", v.typ)
 				}
@@ -1174,7 +1189,7 @@ func (tr *Tr) switchStmt(s *ast.SwitchStmt, env *Env, rest cont) string {
 
 // patterns of a scrutinee of type Term / element-of-Set against a concrete type
 func (tr *Tr) patFor(scrut *T, typeName string, binder string) (string, bool) {
-	im := implFor(typeName)
+	im := implIn(scrut, typeName)
 	if im == nil {
 		return "", false
 	}
@@ -1184,7 +1199,7 @@ func (tr *Tr) patFor(scrut *T, typeName string, binder string) (string, bool) {
 		}
 		return fmt.Sprintf(im.atomPat, binder), true
 	}
-	return fmt.Sprintf(im.termPat, binder), true
+	return fillPat(im.termPat, binder), true
 }
 
 func (tr *Tr) payloadType(typeName string, at ast.Node) *T {
@@ -1220,6 +1235,29 @@ func (tr *Tr) commaOk(s *ast.AssignStmt, ta *ast.TypeAssertExpr, define bool, en
 		okBranch := tr.bindAll(s, s.Lhs, okV, define, nil, e, rest)
 		return tr.letScrut(x, func(sc string) string {
 			return fmt.Sprintf("match %s with\n| %s =>\n%s\n| _ =>\n%s\nend", sc, pat, ind(ind(okBranch)), ind(ind(failBranch)))
+		})
+	})
+}
+
+// v, ok := m[k] on a map[Variable]*Term: the model's dlookup (Model/DEval.v).  The
+// pointer read out of the map is taken to be non-nil (its later dereference is not
+// a panic branch): the callers build these maps from addresses of variables.
+func (tr *Tr) commaOkMap(s *ast.AssignStmt, ix *ast.IndexExpr, define bool, env *Env, rest cont) string {
+	return tr.expr(ix.X, env, func(e1 *Env, m Val) string {
+		m = tr.use(m, ix.X)
+		if m.typ.K != KMap {
+			tr.fail(s, "comma-ok index of a value of type %v", m.typ)
+		}
+		return tr.expr(ix.Index, e1, func(e2 *Env, kv Val) string {
+			kv = tr.coerce(tr.use(kv, ix.Index), m.typ.Key, ix.Index)
+			tr.needDEval = true
+			binder := tr.fresh("p")
+			okV := []Val{{term: binder, typ: m.typ.Elem}, {term: "true", typ: tBool}}
+			failV := []Val{tr.zero(m.typ.Elem, ix), {term: "false", typ: tBool}}
+			okBranch := tr.bindAll(s, s.Lhs, okV, define, nil, e2, rest)
+			failBranch := tr.bindAll(s, s.Lhs, failV, define, nil, e2, rest)
+			return fmt.Sprintf("match dlookup %s %s with\n| Some %s =>\n%s\n| None =>\n%s\nend", paren(m.term), paren(kv.term),
+				binder, ind(ind(okBranch)), ind(ind(failBranch)))
 		})
 	})
 }
@@ -1271,8 +1309,8 @@ func (tr *Tr) typeSwitchStmt(s *ast.TypeSwitchStmt, env *Env, rest cont) string 
 					if id.Name == "nil" {
 						continue // a represented Term is never nil
 					}
-					if implFor(id.Name) == nil {
-						tr.fail(te, "type switch case %s, which is not a represented Term type", id.Name)
+					if implIn(x.typ, id.Name) == nil {
+						tr.fail(te, "type switch case %s, which is not a represented implementor of %v", id.Name, x.typ)
 					}
 					if _, dup := chosen[id.Name]; !dup {
 						chosen[id.Name] = cc
@@ -1295,7 +1333,7 @@ func (tr *Tr) typeSwitchStmt(s *ast.TypeSwitchStmt, env *Env, rest cont) string 
 			}
 			return tr.letScrut(x, func(sc string) string {
 				var arms []string
-				for _, im := range termImpls {
+				for _, im := range implsOf(x.typ) {
 					binder := tr.fresh("a")
 					pat, _ := tr.patFor(x.typ, im.goType, binder)
 					if pat == "" {
@@ -1306,6 +1344,9 @@ func (tr *Tr) typeSwitchStmt(s *ast.TypeSwitchStmt, env *Env, rest cont) string 
 					switch {
 					case cc != nil && len(cc.List) == 1:
 						bv := Val{term: binder, typ: tr.payloadType(im.goType, s)}
+						if !strings.Contains(pat, binder) {
+							bv.term = "tt" // a struct{} implementor carries nothing
+						}
 						armBody = runBody(cc, e1, &bv)
 					case cc != nil:
 						bv := Val{term: sc, typ: x.typ}
@@ -1373,7 +1414,7 @@ func (tr *Tr) assignedIn(body *ast.BlockStmt, env *Env) []*Binding {
 			// a call that may write through a pointer parameter, a math/big receiver, copy
 			if sel, ok := n.Fun.(*ast.SelectorExpr); ok {
 				if id, ok := unparen(sel.X).(*ast.Ident); ok {
-					if b, ok := env.scope[id.Name]; ok && (b.typ.K == KBigInt || b.ptrParam && tr.isMutated(b)) {
+					if b, ok := env.scope[id.Name]; ok && (b.typ.K == KBigInt || b.ptrParam && tr.isMutated(b) || b.ptrLocal) {
 						add(id)
 					}
 				}
@@ -1383,7 +1424,7 @@ func (tr *Tr) assignedIn(body *ast.BlockStmt, env *Env) []*Binding {
 			}
 			for _, a := range n.Args {
 				if id, ok := unparen(a).(*ast.Ident); ok {
-					if b, ok := env.scope[id.Name]; ok && b.ptrParam && tr.isMutated(b) {
+					if b, ok := env.scope[id.Name]; ok && (b.ptrParam && tr.isMutated(b) || b.ptrLocal) {
 						add(id)
 					}
 				}
